@@ -1,24 +1,29 @@
 #!/bin/bash
-# Applies every confirmed seeded change to /repo in turn, runs ALL checks on it, reverts, and writes /verif/seeded/MATRIX.md
-# (which properties/rules report each change). Development aid; not part of any registered check.
+# Applies every confirmed seeded change in turn to a tree (default /repo; SEED_TREE=<scratch worktree of /repo HEAD> to keep /repo
+# untouched while other work is in flight), runs ALL checks on it, reverts, and writes /verif/seeded/MATRIX.md
+# (which properties/rules report each change; "own" = reported by the check of the seed's own property).
+# Development aid; not part of any registered check.
 set -u
 OUT=/verif/seeded/MATRIX.md
 TMP=$(mktemp -d)
-cd /repo || exit 2
-git diff --quiet || { echo "/repo not clean"; exit 2; }
-echo "| seed | property | reported by (property:rule) | first report |" > $OUT
-echo "|---|---|---|---|" >> $OUT
+TREE=${SEED_TREE:-/repo}
+cd $TREE || exit 2
+git diff --quiet || { echo "$TREE not clean"; exit 2; }
+echo "tree: $TREE at $(git rev-parse --short HEAD)"
+echo "| seed | property | own check | reported by (property:rule) | first report |" > $OUT
+echo "|---|---|---|---|---|" >> $OUT
 for d in /verif/seeded/*/; do
   id=$(basename $d)
   [ -f $d/patch.diff ] || continue
   prop=$(python3 -c "import json;print(json.load(open('$d/meta.json'))['property'])")
-  if ! git apply $d/patch.diff 2>/dev/null; then echo "| $id | $prop | (patch no longer applies) | |" >> $OUT; continue; fi
-  /verif/bin/cadcheck -repo /repo -verif /verif -evidence $TMP -property all > $TMP/out.txt 2>&1
+  if ! git apply $d/patch.diff 2>/dev/null; then echo "| $id | $prop | - | (patch no longer applies) | |" >> $OUT; continue; fi
+  /verif/bin/cadcheck -repo $TREE -verif /verif -evidence $TMP -property all > $TMP/out.txt 2>&1
   git checkout -- . ; git clean -fdq
   hits=$(grep "^FAIL\|^UNDECIDED" $TMP/out.txt | sed -E 's/^(FAIL|UNDECIDED) (C[0-9]+) rule=([^ ]+).*/\2:\3/' | sort -u | tr '\n' ' ')
   first=$(grep -m1 "^FAIL\|^UNDECIDED" $TMP/out.txt | cut -c1-220 | tr '|' '/')
   [ -z "$hits" ] && hits="**MISSED**"
-  echo "| $id | $prop | $hits | $first |" >> $OUT
+  own=no; echo "$hits" | grep -q "$prop:" && own=yes
+  echo "| $id | $prop | $own | $hits | $first |" >> $OUT
 done
 rm -rf $TMP
 cat $OUT | cut -c1-200
